@@ -10,9 +10,11 @@ import (
 
 type verifRDLBuffer struct{ *Buffer }
 
-func (b verifRDLBuffer) Deliver(p []byte) { _, _ = b.Write(p) }
-func (b verifRDLBuffer) Poke()            {}
-func (b verifRDLBuffer) Close()           { _ = b.Buffer.Close() }
+func (b verifRDLBuffer) Deliver(p []byte)     { _, _ = b.Write(p) }
+func (b verifRDLBuffer) Poke()                {}
+func (b verifRDLBuffer) Close()               { _ = b.Buffer.Close() }
+func (b verifRDLBuffer) CloseKeepsData() bool { return true }
+
 func (b verifRDLBuffer) Classify(err error) string {
 	var ne interface{ Timeout() bool }
 	switch {
